@@ -6,6 +6,7 @@ import (
 
 	dtpb "github.com/google/fhir/go/proto/google/fhir/proto/r4/core/datatypes_go_proto"
 	"github.com/verily-src/fhirpath-go/fhirpath/zzverif/lib"
+	"github.com/verily-src/fhirpath-go/internal/fhir"
 	"github.com/verily-src/fhirpath-go/internal/fhirconv"
 	"github.com/verily-src/fhirpath-go/internal/narrow"
 	"golang.org/x/exp/constraints"
@@ -85,7 +86,34 @@ func regFhir[T constraints.Integer](tn string) {
 	})
 }
 
+// regFhirPrim registers the narrowing constructors of internal/fhir: the result
+// is the value of the Integer element they build.
+func regFhirPrim() {
+	narrowTable["fhirprim:int"] = map[string]conv{"int32": func(v *big.Int) (bool, *big.Int) {
+		el, err := fhir.IntegerFromInt(int(v.Int64()))
+		if err != nil {
+			return false, new(big.Int)
+		}
+		return true, big.NewInt(int64(el.GetValue()))
+	}}
+	narrowTable["fhirprim:UnsignedInt"] = map[string]conv{"int32": func(v *big.Int) (bool, *big.Int) {
+		el, err := fhir.IntegerFromUnsignedInt(&dtpb.UnsignedInt{Value: uint32(v.Uint64())})
+		if err != nil {
+			return false, new(big.Int)
+		}
+		return true, big.NewInt(int64(el.GetValue()))
+	}}
+	narrowTable["fhirprim:PositiveInt"] = map[string]conv{"int32": func(v *big.Int) (bool, *big.Int) {
+		el, err := fhir.IntegerFromPositiveInt(&dtpb.PositiveInt{Value: uint32(v.Uint64())})
+		if err != nil {
+			return false, new(big.Int)
+		}
+		return true, big.NewInt(int64(el.GetValue()))
+	}}
+}
+
 func init() {
+	regFhirPrim()
 	regFrom[int8]("int8")
 	regFrom[int16]("int16")
 	regFrom[int32]("int32")
